@@ -54,6 +54,34 @@ theorem uu_roundtrip (bpb mode : Nat) (name x : List Nat) (chunks : List (List N
   rw [uu_encode_chunking_independent, hx]
   exact stream_roundtrip (uuSpec mode name hn) x hb first orc hfirst
 
+/-- The statement without the hypothesis on the first window is false of the
+(repaired) code: a window that ends exactly after the `begin` line makes
+`uudecode_filter_read` return 0 after having consumed that line, and 0 is the
+end of data for its caller.  `uu_roundtrip` above is the `_partial` theorem;
+its hypothesis `hfirst` names what is excluded, and
+`bidder_recognises_own_output` is why the reader never gets there (the bidder
+has pulled in the line after the `begin` line before the filter is created). -/
+def RoundTripEveryFirstWindow : Prop :=
+  ∀ (bpb mode : Nat) (name x : List Nat) (chunks : List (List Nat)) (first : Nat) (orc : List Nat),
+    chunks.flatten = x → Bytes x → NameOk name → decode first orc (LA.Uu.encode bpb mode name chunks) = .eof x
+
+theorem not_roundtrip_every_first_window : ¬ RoundTripEveryFirstWindow := by
+  intro h
+  have hn : NameOk [45] := ⟨by decide, by intro c hc; simp at hc; omega, by decide⟩
+  have hb : Bytes [104] := by intro b hb; simp at hb; omega
+  have h1 := h 10240 420 [45] [104] [[104]] 11 [] rfl hb hn
+  rw [uu_encode_chunking_independent] at h1
+  have h2 := header_only_window (uuSpec 420 [45] hn) [104] hb 11 [] (by decide)
+  simp only [List.flatten_cons, List.flatten_nil, List.append_nil] at h1
+  rw [h2] at h1
+  simp at h1
+
+theorem uu_roundtrip_partial (bpb mode : Nat) (name x : List Nat) (chunks : List (List Nat)) (first : Nat)
+    (orc : List Nat) (hx : chunks.flatten = x) (hb : Bytes x) (hn : NameOk name)
+    (hfirst : (header LA.Uu.codec mode name).length ≤ first) :
+    decode first orc (LA.Uu.encode bpb mode name chunks) = .eof x :=
+  uu_roundtrip bpb mode name x chunks first orc hx hb hn hfirst
+
 /-- **b64encode → uudecode is the identity**, likewise. -/
 theorem b64_roundtrip (bpb mode : Nat) (name x : List Nat) (chunks : List (List Nat)) (first : Nat) (orc : List Nat)
     (hx : chunks.flatten = x) (hb : Bytes x) (hn : NameOk name)
@@ -87,6 +115,33 @@ theorem bidder_recognises_own_output (bpb mode : Nat) (name x : List Nat) (chunk
 
 example : NameOk [102, 105, 108, 101] ∧ Bytes ([] : List Nat) := by
   refine ⟨⟨by decide, by intro c hc; simp at hc; omega, by decide⟩, by intro b hb; simp at hb⟩
+
+/-- Over *all* `name` settings the statement is false of the unchanged code (finding
+C03-uu-name-nonascii): `get_line` gives up on any byte outside 0x20..0x7e, so a
+UTF-8 name makes the bidder decline.  Witness: name "é", one byte of data.
+`bidder_recognises_own_output` is the `_partial` theorem; `NameOk` names the exclusion. -/
+def BidderRecognisesEveryName : Prop :=
+  ∀ (name : List Nat), name ≠ [] → (∀ c ∈ name, c < 256 ∧ c ≠ 0 ∧ c ≠ 10 ∧ c ≠ 13) →
+    ∃ n, 0 < n ∧ (bid (LA.Uu.encode 10240 420 name [[104]]) ScriptUp.ahead
+      { total := (LA.Uu.encode 10240 420 name [[104]]).length, extra := [] }).1 = .bid n
+
+set_option maxRecDepth 4000 in
+theorem not_bidder_recognises_every_name : ¬ BidderRecognisesEveryName := by
+  intro h
+  obtain ⟨n, hn, hbid⟩ := h [195, 169] (by decide) (by intro c hc; simp at hc; omega)
+  have e : LA.Uu.encode 10240 420 [195, 169] [[104]] =
+      [98, 101, 103, 105, 110, 32, 54, 52, 52, 32, 195, 169, 10, 33, 58, 96, 96, 96, 10, 96, 10, 101, 110, 100, 10] := by
+    rw [uu_encode_chunking_independent]
+    simp [encStream, header, LA.Uu.codec, uuBegin, octal3, uuTrailer, encAll, uuLBytes, LA.Uu.encLine,
+      LA.Uu.triples, LA.Uu.ch]
+  rw [e] at hbid
+  have : (bid [98, 101, 103, 105, 110, 32, 54, 52, 52, 32, 195, 169, 10, 33, 58, 96, 96, 96, 10, 96, 10, 101, 110, 100, 10]
+      ScriptUp.ahead { total := 25, extra := [] }).1 = .bid 0 := by
+    simp [bid, ScriptUp.ahead, bidFind, bidGetLine, bidLoop, BidSt.avail, getLine, cls, nbytesReq, bidMaxRead]
+  simp only [List.length_cons, List.length_nil] at hbid
+  rw [this] at hbid
+  simp at hbid
+  omega
 
 /-- `la_b64_encode` never writes a line longer than 76 characters plus the newline;
 `uu_encode` never one longer than 61 + 1. -/
